@@ -227,17 +227,19 @@ Definition internal (s : st) : option st :=
   | _ => None
   end.
 
-Fixpoint settle (fuel : nat) (s : st) : st :=
+(** [None]: the fuel did not suffice (excluded by statement from every theorem: an accepted
+    trace is one on which this never happens; the judge would report it as a rejection) *)
+Fixpoint settle (fuel : nat) (s : st) : option st :=
   match fuel with
-  | O => set_ctl s (PPanic "settle: out of fuel")
-  | S k => match internal s with Some s' => settle k s' | None => s end
+  | O => None
+  | S k => match internal s with Some s' => settle k s' | None => Some s end
   end.
 
 (** every internal move either consumes a queued socket or moves forward in the loop body, and
-    the body has at most 6 internal control points per iteration *)
-Definition settle_fuel (s : st) : nat := 8 * (S (List.length (queue s))) + 8.
+    the body has fewer than 12 internal control points per iteration *)
+Definition settle_fuel (s : st) : nat := 12 * (S (List.length (queue s))) + 12.
 
-Definition settled (s : st) : st := settle (settle_fuel s) s.
+Definition settled (s : st) : option st := settle (settle_fuel s) s.
 
 (** * Observable steps *)
 
@@ -326,16 +328,15 @@ Definition step_raw (s : st) (e : ev) : option st :=
 
 (** the start index of StreamMap is not observable by itself: it is read off the first stream
     the loop polls, then the same event is processed as the first iteration *)
+Definition obind {A B} (o : option A) (f : A -> option B) : option B :=
+  match o with Some a => f a | None => None end.
+
 Definition step (s : st) (e : ev) : option st :=
-  let s0 := settled s in
+  obind (settled s) (fun s0 =>
   match ctl s0, e with
-  | PStreamsStart, EStream _ _ =>
-    match step_raw s0 e with
-    | Some s1 => option_map settled (step_raw s1 e)
-    | None => None
-    end
-  | _, _ => option_map settled (step_raw s0 e)
-  end.
+  | PStreamsStart, EStream _ _ => obind (step_raw s0 e) (fun s1 => obind (step_raw s1 e) settled)
+  | _, _ => obind (step_raw s0 e) settled
+  end).
 
 Fixpoint run (s : st) (tr : list ev) : option st :=
   match tr with
